@@ -340,7 +340,7 @@ var (
 	reThis    = regexp.MustCompile(`This Update: (.+)`)
 	reNext    = regexp.MustCompile(`Next Update: (.+)`)
 	reRevTime = regexp.MustCompile(`Revocation Time: (.+)`)
-	reReason  = regexp.MustCompile(`Revocation Reason: \w+ \(0x([0-9a-fA-F]+)\)`)
+	reReason  = regexp.MustCompile(`Revocation Reason: [^\n]*\(0x([0-9a-fA-F]+)\)`) // name may be "(UNKNOWN)" for codes OpenSSL has no string for
 	reProd    = regexp.MustCompile(`Produced At: (.+)`)
 )
 
@@ -418,6 +418,11 @@ func (w *c48w) ossl() {
 		ref, perr := ocspref.Parse(der)
 		selfOK := perr == nil && verifyRaw(signer.key.Public(), ref.SigAlgOID, ref.TBSBytes(), ref.SigBytes)
 		verified := rerr == nil && strings.Contains(txt, "Response verify OK")
+		if !verified && !strings.Contains(txt, "Response Verify Failure") && !strings.Contains(txt, "OCSP Response Data") {
+			// the tool did not run to a verdict (fork failure under load …): the witness is simply absent for this case
+			m.Count("ossl_tool_no_verdict", 1)
+			return
+		}
 		switch {
 		case verified && selfOK:
 			m.Count("ossl_verified", 1)
@@ -471,9 +476,14 @@ func (w *c48w) ossl() {
 			wit["fields"] = bad
 			// the walker is the tie-breaker between Go's encoder and OpenSSL's printer
 			s := ref.Singles[0]
-			walkerAgreesWithTemplate := s.Status == tmpl.Status && s.Serial.Cmp(serial) == 0 && s.ThisUpdate.Equal(tmpl.ThisUpdate.Truncate(time.Second))
+			walkerAgreesWithTemplate := s.Status == tmpl.Status && s.Serial.Cmp(serial) == 0 && s.ThisUpdate.Equal(tmpl.ThisUpdate.Truncate(time.Second)) &&
+				s.HasNext == !tmpl.NextUpdate.IsZero() && (!s.HasNext || s.NextUpdate.Equal(tmpl.NextUpdate.Truncate(time.Second))) &&
+				(tmpl.Status != ocsp.Revoked || (s.RevokedAt.Equal(tmpl.RevokedAt.Truncate(time.Second)) && s.Reason == int64(tmpl.RevocationReason)))
 			if walkerAgreesWithTemplate {
-				m.Inconclusive(fmt.Sprintf("ossl-verify case %d: openssl prints %v differently, walker agrees with the template; serial=%x text=%.600q", i, bad, serial, txt))
+				// the response carries the template (independent walker); OpenSSL's text omits or renders a
+				// field in a way this reader does not expect: an observation about the printer, not a verdict
+				m.Count("ossl_text_not_understood", 1)
+				m.Count("ossl_text_not_understood:"+bad[0], 1)
 			} else {
 				m.Violation("ossl-verify:created-response-carries-wrong-field:"+bad[0], wit)
 			}
